@@ -52,17 +52,28 @@ impl Handler for NoAwaitInLoopHandler {
           // except for the case where the given `await_expr` is contained in the `right` part.
           // e.g. for (const x of await xs) { ... }
           //                      ^^^^^^^^ <-------- `right` part
-          !right.range().contains(&await_expr.range())
+          if right.range().contains(&await_expr.range()) {
+            // evaluated once for this loop, but maybe inside an outer one
+            node.parent().is_some_and(|p| inside_loop(await_expr, p))
+          } else {
+            true
+          }
         }
         ForStmt(stmt) => {
           // When it encounters `ForStmt`, we should treat it as `inside_loop = true`
           // except for the case where the given `await_expr` is contained in the `init` part.
           // e.g. for (let i = await foo(); i < n; i++) { ... }
           //           ^^^^^^^^^^^^^^^^^^^ <---------- `init` part
-          stmt
+          if stmt
             .init
             .as_ref()
-            .is_none_or(|init| !init.range().contains(&await_expr.range()))
+            .is_some_and(|init| init.range().contains(&await_expr.range()))
+          {
+            // evaluated once for this loop, but maybe inside an outer one
+            node.parent().is_some_and(|p| inside_loop(await_expr, p))
+          } else {
+            true
+          }
         }
         WhileStmt(_) | DoWhileStmt(_) => true,
         _ => {
